@@ -573,9 +573,21 @@ func init() {
 	}
 
 	// ---- harness API ------------------------------------------------------
+	// GOSX_FIX=name=value,... pins harness symbols to constants (debugging aid: a concrete run
+	// of one replay vector inside the engine, to compare with its native replay)
+	fixVals := map[string]uint64{}
+	for _, kv := range strings.Split(os.Getenv("GOSX_FIX"), ",") {
+		if i := strings.Index(kv, "="); i > 0 {
+			v, _ := strconv.ParseUint(kv[i+1:], 10, 64)
+			fixVals[kv[:i]] = v
+		}
+	}
 	nondet := func(w uint16) intrinsicFn {
 		return func(m *Machine, _ *frame, _ *ssa.Function, args []Value) (Value, bool) {
 			name := m.strConcrete(args[0].(Str))
+			if v, ok := fixVals[name]; ok {
+				return mkInt(uint8(w), v), true
+			}
 			return m.fromTerm(m.fresh(name, w)), true
 		}
 	}
@@ -584,6 +596,9 @@ func init() {
 	reg(zzPath+".Int", nondet(64))
 	reg(zzPath+".Uint32", nondet(32))
 	reg(zzPath+".Bool", func(m *Machine, _ *frame, _ *ssa.Function, args []Value) (Value, bool) {
+		if v, ok := fixVals[m.strConcrete(args[0].(Str))]; ok {
+			return BoolV{C: v != 0}, true
+		}
 		return m.fromTerm(m.fresh(m.strConcrete(args[0].(Str)), 0)), true
 	})
 	reg(zzPath+".Assume", func(m *Machine, _ *frame, _ *ssa.Function, args []Value) (Value, bool) {
